@@ -4,6 +4,12 @@ NOTES = ("All checks: bin/check <ID> --tier quick|thorough. Exit 0 held / 1 VIOL
          "Specification in spec/, harness in harness/, known findings in known_findings.jsonl; see DESIGN.md.")
 NOT_APPLICABLE = {}
 CHECKS = {
+    "C19": {
+        "level": "model_checking",
+        "technique": "TLA+ Diag spec (location bounds, rendering prefix, delivery-order rule with the permitted de-duplication) judging one event per compilation in TLC (Trace_Diag); events from MC_Eval 'diag' programs with expectations computed by Eval.tla (file, line, message) x quiet x unicode x CRLF/comment-padded variants, and from failing corpus inputs and their seeded mutations",
+        "text": "Every compilation performed is an event that TLC must explain with Diag: errors well located inside a known file and renderable with the 'Error: <message>' prefix in both modes, @error = inspect(value) at the directive's file/line, logger deliveries = executed directives in program order (a repeated identical @warn of one directive may be dropped), nothing under quiet, zero bytes on fd 1/2.",
+        "note": "Expected deliveries exist only for generated programs; arbitrary failing inputs are judged on location bounds/rendering only. Column positions are not demanded. Under quiet the error/ok outcome is not judged (grass skips @debug/@warn operands).",
+    },
     "C03": {
         "level": "model_checking",
         "technique": "TLA+ reference semantics (Eval.tla: scoping, closures, control flow, argument binding, operators); TLC enumerates/simulates programs (MC_Eval) and computes expected declarations and logger deliveries, grass is run on each; scope-operation traces from hooks validated by TLC (Trace_Scopes) on generated programs and the golden corpus",
